@@ -57,6 +57,8 @@ DFXP_PIECES = [
     (E_ACUTE, "&#233;", "nonascii-decimal"),
     ("<x>", "&lt;x&gt;", "markup-text-named"),
     ("<x>y", "&#60;x&#62;y", "markup-text-decimal"),
+    ("<br/>", "&lt;br/&gt;", "known-tag-text-escaped"),
+    ("<span>x</span>", "&lt;span&gt;x&lt;/span&gt;", "known-tag-text-escaped"),
     ("a&b;", "a&#38;b;", "entity-text-decimal"),
     ("it", '<span tts:fontStyle="italic">it</span>', "span"),
     ("ab", '<span tts:fontStyle="italic">a<span tts:fontWeight="bold">b</span></span>', "nested-span"),
@@ -79,6 +81,8 @@ SAMI_PIECES = [
     ("<x>", "&lt;x&gt;", "markup-text-named"),
     ("<x>y", "&#60;x&#62;y", "markup-text-decimal"),
     ("<i>", "&#x3c;i&#x3e;", "markup-text-hex"),
+    ("<b>x</b>", "&lt;b&gt;x&lt;/b&gt;", "known-tag-text-escaped"),
+    ("<br>", "&lt;br&gt;", "known-tag-text-escaped"),
     ("a&lt;", "a&#38;lt;", "entity-text-decimal"),
     ('"', "&quot;", "quot"),
     ("'", "&apos;", "apos-named"),
@@ -107,6 +111,11 @@ VTT_PIECES = [
     ("&amp;", "&amp;amp;", "entity-text-encoded-once"),
     ("x" + NB + "y", "x&nbsp;y", "nbsp"),
     ("a\u200eb", "a&lrm;b", "lrm"),
+    ("<i>x</i>", "&lt;i&gt;x&lt;/i&gt;", "known-tag-text-escaped"),
+    ("a <b and b> c", "a &lt;b and b&gt; c", "known-tag-text-escaped"),
+    ("<v Bob> hi", "&lt;v Bob&gt; hi", "known-tag-text-escaped"),
+    ("<00:00:01.000>", "&lt;00:00:01.000&gt;", "known-tag-text-escaped"),
+    ("<c>", "&lt;c&gt;", "known-tag-text-escaped"),
     ("it", "<i>it</i>", "tag"),
     ("bo", "<b>bo</b>", "tag"),
     ("un", "<u>un</u>", "tag"),
@@ -200,19 +209,28 @@ def evaluate_raw(fmt, captions_pieces, brk_i, join_i, wrap_first):
     """captions_pieces: list (captions) of list (lines) of list of piece indexes"""
     P = PIECES[fmt]
     brk = BREAKS[fmt][brk_i]
-    join = JOINS[fmt][join_i]
+    # join_i: one join for every gap of a line, or a list of joins used gap by gap (cyclically)
+    joins = [JOINS[fmt][j] for j in (join_i if isinstance(join_i, (list, tuple)) else [join_i])]
     enc_caps, want = [], []
     classes = set()
     for cap in captions_pieces:
         el, wl = [], []
         for line in cap:
-            el.append(join.join(P[i][1] for i in line))
+            enc = ""
+            for k, i in enumerate(line):
+                if k:
+                    j = joins[(k - 1) % len(joins)]
+                    enc += j
+                    if j != " ":
+                        # a line end next to an inline element and a line end inside running text are different situations
+                        inline = {"span", "nested-span", "tag"}
+                        classes.add("source-line-wrap-next-to-inline-element" if (P[i][2] in inline or P[line[k - 1]][2] in inline) else "source-line-wrap-within-text")
+                enc += P[i][1]
+            el.append(enc)
             wl.append(parsers.norm_line(" ".join(P[i][0] for i in line)))
             classes |= {P[i][2] for i in line if P[i][2] != "plain"}
         enc_caps.append(el)
         want.append(wl)
-    if join != " " and any(len(l) > 1 for c in captions_pieces for l in c):
-        classes.add("source-line-wrap")
     if wrap_first:
         classes.add("indented-block")
     if len(captions_pieces[0]) > 1:
@@ -242,9 +260,13 @@ def evaluate(fmt, caps, brk_i, join_i, wrap):
     kind = _kind(v[0][0])
     cur = ([[list(l) for l in c] for c in caps], brk_i, join_i, wrap)
 
+    classes0 = set(v[0][0].split("/", 3)[3].split("+"))
+
     def still(c):
+        # same failure kind, and no input class the original case did not have (a smaller case must not wander into a
+        # different defect, e.g. by moving a line end next to an inline element)
         r, _ = evaluate_raw(fmt, *c)
-        return bool(r) and _kind(r[0][0]) == kind
+        return bool(r) and _kind(r[0][0]) == kind and set(r[0][0].split("/", 3)[3].split("+")) <= classes0
 
     changed = True
     while changed:
@@ -323,7 +345,7 @@ def run_shard(d):
 
     def run(caps, brk_i=0, join_i=0, wrap=False):
         v, out = evaluate(fmt, caps, brk_i, join_i, wrap)
-        acc.case((fmt, caps, brk_i, join_i, wrap), True, out, {"format": fmt, "captions": [[[P[i][1] for i in l] for l in c] for c in caps], "break": BREAKS[fmt][brk_i], "join": JOINS[fmt][join_i]})
+        acc.case((fmt, caps, brk_i, join_i, wrap), True, out, {"format": fmt, "captions": [[[P[i][1] for i in l] for l in c] for c in caps], "break": BREAKS[fmt][brk_i], "join": [JOINS[fmt][j] for j in join_i] if isinstance(join_i, (list, tuple)) else JOINS[fmt][join_i]})
         for sig, det in v:
             acc.violation(sig, {"fmt": fmt, "caps": caps, "brk": brk_i, "join": join_i, "wrap": wrap}, det)
 
@@ -346,6 +368,14 @@ def run_shard(d):
                     run([[[i] for i in lines]], brk_i, 0)
                     if fmt in ("dfxp", "sami") and nl == 2:
                         run([[[i] for i in lines]], brk_i, 0, True)
+        if len(JOINS[fmt]) > 1:
+            # text wrapped over source lines with an inline element (or any other piece) on the same line: every
+            # placement of one line end and one blank among three pieces
+            for a in range(len(P)):
+                for pat in ([1, 0], [0, 1]):
+                    run([[[0, 1, a]]], 0, pat)
+                    run([[[a, 0, 1]]], 0, pat)
+                    run([[[0, a, 1]]], 0, pat)
         for a in red:
             for b in red:
                 run([[[a, 0]], [[b], [1]]], 0, 0)
